@@ -107,12 +107,17 @@ func (p *TinkPool) Put(t *PooledTink) { p.free = append(p.free, t) }
 // report it as an observation of the operation that caused it. It changes nothing else.
 type GuardStore struct {
 	partstore.PartStore
-	Panics *atomic.Int64
+	Panics   *atomic.Int64
+	InFlight *atomic.Int64 // guarded PutPart calls that have not returned yet
 }
 
 var errGuardedPanic = errors.New("panic in shard store call")
 
 func (g *GuardStore) PutPart(ctx context.Context, tx database.Tx, id partstore.PartId, r io.Reader) (err error) {
+	if g.InFlight != nil {
+		g.InFlight.Add(1)
+		defer g.InFlight.Add(-1)
+	}
 	defer func() {
 		if p := recover(); p != nil {
 			g.Panics.Add(1)
@@ -286,13 +291,29 @@ type Leaf struct {
 // StackEnv owns what all stacks of a harness run share: the SQLite database, the scratch
 // directory, the tink pool, the outbox gate.
 type StackEnv struct {
-	Dir     string
-	DB      database.Database
-	Gate    *Gate
-	Tinks   *TinkPool
-	outRepo partoutboxentry.Repository
-	seq     int
-	Panics  atomic.Int64 // panics caught by GuardStores
+	Dir      string
+	DB       database.Database
+	Gate     *Gate
+	Tinks    *TinkPool
+	outRepo  partoutboxentry.Repository
+	seq      int
+	Panics   atomic.Int64 // panics caught by GuardStores
+	InFlight atomic.Int64 // guarded shard-store PutPart calls still running
+}
+
+// Settle waits until no guarded shard-store write is in flight any more. erasurecoding.PutPart returns
+// at the FIRST shard error without waiting for the other shard writes it started, so such writes (and
+// their panics) can outlive the operation that caused them; observations are attributed to the
+// operation only after they have ended.
+func (e *StackEnv) Settle(timeout time.Duration) bool {
+	deadline := time.Now().Add(timeout)
+	for e.InFlight.Load() != 0 {
+		if time.Now().After(deadline) {
+			return false
+		}
+		time.Sleep(200 * time.Microsecond)
+	}
+	return true
 }
 
 func NewStackEnv(dir string) *StackEnv {
@@ -374,7 +395,7 @@ func (b *BuiltStack) build(word []Letter, base string) partstore.PartStore {
 		n := l.A + l.B
 		stores := make([]partstore.PartStore, n)
 		for i := range stores {
-			stores[i] = &GuardStore{PartStore: b.build(rest, base), Panics: &e.Panics}
+			stores[i] = &GuardStore{PartStore: b.build(rest, base), Panics: &e.Panics, InFlight: &e.InFlight}
 		}
 		return Must(erasurecoding.NewWithPartStores(l.A, l.B, l.C, stores, erasurecoding.WithHealScanInterval(0)))
 	}
